@@ -506,3 +506,15 @@ impl Database {
         Ok(total_frames)
     }
 }
+
+/// verification hooks (add-only): direct access to the two crate-private recovery procedures.
+#[cfg(kahflane_turdb_verif)]
+impl Database {
+    pub fn verif_recover_all_tables(db_path: &Path) -> Result<u32> {
+        Self::recover_all_tables(db_path, &db_path.join("wal"))
+    }
+
+    pub fn verif_streaming_recovery(db_path: &Path, batch_size: usize) -> Result<u32> {
+        Self::streaming_recovery(db_path, &db_path.join("wal"), batch_size, None)
+    }
+}
